@@ -234,9 +234,9 @@ fn generator_suite(ctx: &mut Ctx, rng: &mut Rng) {
         ctx.evaluations += 3;
         let d = format!("range({a},{b},{st})");
         for (ty, r) in [
-            ("i32", catch(|| Vec::<i32>::range(Some(a as i32), b as i32, Some(st as i32)).len())),
-            ("f64", catch(|| Vec::<f64>::range(Some(a as f64 / 2.0), b as f64 / 2.0, Some(st as f64 / 4.0)).len())),
-            ("opt f64", catch(|| Vec::<Option<f64>>::range(Some(a as f64), b as f64, Some(st as f64 / 2.0)).len())),
+            ("i32", catch(|| <Vec<i32> as Vec1Create<i32>>::range(Some(a as i32), b as i32, Some(st as i32)).len())),
+            ("f64", catch(|| <Vec<f64> as Vec1Create<f64>>::range(Some(a as f64 / 2.0), b as f64 / 2.0, Some(st as f64 / 4.0)).len())),
+            ("opt f64", catch(|| <Vec<Option<f64>> as Vec1Create<Option<f64>>>::range(Some(a as f64), b as f64, Some(st as f64 / 2.0)).len())),
         ] {
             ctx.events += 1;
             match r {
@@ -246,7 +246,7 @@ fn generator_suite(ctx: &mut Ctx, rng: &mut Rng) {
             }
         }
         let n = rng.range_usize(0, 9);
-        for r in [catch(|| Vec::<f64>::linspace(Some(a as f64), b as f64, n).len()), catch(|| VecDeque::<i32>::linspace(Some(a as i32), b as i32, n).len())] {
+        for r in [catch(|| <Vec<f64> as Vec1Create<f64>>::linspace(Some(a as f64), b as f64, n).len()), catch(|| <VecDeque<i32> as Vec1Create<i32>>::linspace(Some(a as i32), b as i32, n).len())] {
             ctx.events += 1;
             match r {
                 Ok(l) if l == n => ctx.count("generators_ok"),
